@@ -30,6 +30,7 @@ CODES = {
     13: "manual validation mode: promoted without the canary-valid annotation",
     14: "the recorded active replica set is gone but the matching one was not adopted",
     15: "time is missing for the promotion but the reconcile did not ask to be requeued at that moment",
+    16: "a replica set that is not the active one lost its Canary-Failed mark (it could then be promoted by elapsed time)",
     20: "harness panic",
 }
 EXHAUSTIVE = {"quick": False, "thorough": True}
